@@ -1,6 +1,7 @@
 package engines
 
 import (
+	"errors"
 	"fmt"
 	"os"
 	"sort"
@@ -961,6 +962,17 @@ func (h *histCtx) relaxedCheck(tag string, st persistence.HistoryStore, stName s
 				case mr == newest.r && (markerOf(got) < newest.ack || markerOf(got) > mr.maxTried):
 					h.viol("latest-stale-status", h.crashDisc(newest.r), "[%s %s] ReadStatusToday(%s) returned marker %d, acknowledged %d", stName, tag, d, markerOf(got), newest.ack)
 				}
+			}
+		}
+		if newest == nil {
+			// nothing acknowledged that the query could return: it says so, it does not fail
+			day0 := time.Now().Format("20060102")
+			_, err := st.ReadStatusToday(d)
+			if err != nil && !errors.Is(err, persistence.ErrNoStatusData) && !errors.Is(err, persistence.ErrNoStatusDataToday) &&
+				!(h.sc.LatestToday && time.Now().Format("20060102") != day0) {
+				h.viol("latest-error", "nothing-acknowledged", "[%s %s] ReadStatusToday(%s): %v; with no acknowledged status to return the answer is \"no status data\", not a failure", stName, tag, d, err)
+			} else if err != nil {
+				bump(h.out, "latest_says_no_data_after_crash")
 			}
 		}
 		// ---- recent
